@@ -155,7 +155,7 @@ func shapeRoot(r *rand.Rand, doc string) (string, string) {
 	issOpen := strings.Index(rest, "<saml:Issuer>")
 	issClose := strings.Index(rest, "</saml:Issuer>")
 	kinds := []string{"dup-id-around-prefixed", "dup-dest-around-prefixed", "dup-id", "dup-destination", "dup-inresponseto", "prefixed-id", "prefixed-destination", "attr-refs", "attr-whitespace", "two-issuers", "two-issuers-rev", "foreign-issuer-first", "foreign-issuer-last",
-		"nested-issuer", "nested-issuer-html-name", "nested-issuer-html-name", "text-in-html-name", "no-root-issuer", "empty-issuer", "empty-issuer-selfclosed", "empty-issuer-blank", "empty-issuer", "issuer-comment", "issuer-cdata", "issuer-refs", "issuer-attrs", "bom", "doctype", "leading-stuff", "decl-utf8", "decl-latin1", "decl-utf16-label", "decl-ascii", "decl-standalone", "version-dup", "xml-attrs", "trailing-stuff"}
+		"nested-issuer", "nested-issuer-html-name", "nested-issuer-html-name", "text-in-html-name", "no-root-issuer", "empty-issuer", "empty-issuer-selfclosed", "empty-issuer-blank", "empty-issuer", "issuer-comment", "issuer-cdata", "issuer-refs", "issuer-attrs", "bom", "doctype", "leading-stuff", "decl-utf8", "decl-latin1", "decl-utf16-label", "decl-ascii", "decl-standalone", "version-dup", "xml-attrs", "trailing-stuff", "trailing-second-root", "trailing-second-root", "trailing-other-element", "trailing-text"}
 	k := kinds[r.IntN(len(kinds))]
 	pre := ""
 	switch k {
@@ -253,6 +253,15 @@ func shapeRoot(r *rand.Rand, doc string) (string, string) {
 		pre = "\n  <!-- leading comment --><?pi data?>\n"
 	case "trailing-stuff":
 		rest += "\n<!-- trailing --><?pi x?>\n"
+	case "trailing-second-root":
+		// after the message, a second top-level element of the same kind carrying other values (not well-formed as a
+		// document; whoever accepts it must read the same element everywhere)
+		name := doc[i+1 : i+strings.IndexAny(doc[i:], " >")]
+		rest += "\n<" + name + ` xmlns:samlp="` + sim.NSP + `" xmlns:saml="` + sim.NSA + `" ID="_second" InResponseTo="_attacker_chosen" Version="2.0" Destination="https://other-tenant.example.test/acs"><saml:Issuer>https://evil-idp.example.test/</saml:Issuer></` + name + ">"
+	case "trailing-other-element":
+		rest += pick(r, []string{"<x/>", `<evil ID="_e" InResponseTo="_x"/>`, `<saml:Issuer xmlns:saml="` + sim.NSA + `">https://evil-idp.example.test/</saml:Issuer>`})
+	case "trailing-text":
+		rest += pick(r, []string{"garbage", "\n]]>", "&amp;", "\x00"})
 	case "decl-utf8":
 		pre = `<?xml version="1.0" encoding="utf-8"?>`
 	case "decl-latin1":
@@ -502,7 +511,7 @@ func runC20(c *mon.Ctx) {
 		}
 		shaped, kind := shapeRoot(r, base)
 		switch kind {
-		case "dup-id-around-prefixed", "dup-dest-around-prefixed", "dup-id", "dup-destination", "dup-inresponseto", "version-dup", "bom", "doctype", "leading-stuff", "trailing-stuff", "decl-utf8", "decl-latin1", "decl-utf16-label", "decl-ascii", "decl-standalone":
+		case "dup-id-around-prefixed", "dup-dest-around-prefixed", "dup-id", "dup-destination", "dup-inresponseto", "version-dup", "bom", "doctype", "leading-stuff", "trailing-stuff", "trailing-second-root", "trailing-other-element", "trailing-text", "decl-utf8", "decl-latin1", "decl-utf16-label", "decl-ascii", "decl-standalone":
 			cs.Outcome("shape-not-representable-after-signing")
 			continue
 		}
